@@ -156,7 +156,58 @@ def _rand_brush(rng, impl, vmf):
                 if rng.random() < 0.5:
                     p.x += rng.choice([0.5, -3, 0.125, round(rng.uniform(-8, 8), 2)])
                     p.z -= rng.choice([0, 1, 0.75])
+    if rng.random() < 0.3:
+        for _ in range(rng.choice([1, 1, 2])):
+            make_disp(rng, impl, vmf, solid, rng.randrange(len(solid.sides)))
     return solid
+
+
+def _rand_dir(rng):
+    k = rng.random()
+    if k < 0.25:
+        return (0.0, 0.0, 1.0)
+    if k < 0.4:
+        return tuple(float(x) for x in rng.choice([(1, 0, 0), (0, -1, 0), (0, 0, -1), (0, 0, 0)]))
+    v = [rng.uniform(-1, 1) for _ in range(3)]
+    n = math.sqrt(sum(x * x for x in v)) or 1.0
+    return tuple(round(x / n, 6) for x in v)
+
+
+def make_disp(rng, impl, vmf, solid, index):
+    """Replace one face of `solid` by a displacement face (power 1-3) with random per-vertex normals,
+    distances, offsets, offset normals, alphas, triangle tags and (sometimes) multiblend data."""
+    Side, Vec, Vec4, TriangleTag, DispFlag = impl['Side'], impl['Vec'], impl['Vec4'], impl['TriangleTag'], impl['DispFlag']
+    old = solid.sides[index]
+    if old.is_disp:
+        return
+    power = rng.choice([1, 1, 2, 3])
+    new = Side(vmf, [p.copy() for p in old.planes], mat=old.mat, uaxis=old.uaxis.copy(), vaxis=old.vaxis.copy(),
+               disp_power=power)
+    new.disp_pos = Vec(*rand_point(rng))
+    new.disp_elevation = rng.choice([0.0, 0.0, 1.5, -8.0])
+    new.disp_flags = DispFlag(rng.choice([0, 1, 7, 8, 15]))
+    multi = rng.random() < 0.3
+    tags = [TriangleTag.STEEP, TriangleTag.WALKABLE, TriangleTag.WALKABLE | TriangleTag.BUILDABLE]
+    flat = rng.random() < 0.15      # the plain "sculpted upwards" displacement: vertical normals, no offsets
+    size = new.disp_size
+    for y in range(size):
+        for x in range(size):
+            v = new[x, y]
+            v.normal = Vec(0, 0, 1) if flat else Vec(*_rand_dir(rng))
+            v.distance = rng.choice([0.0, 1.0, 16.0, round(rng.uniform(-64, 64), 3)])
+            if not flat and rng.random() < 0.6:
+                v.offset = Vec(*(round(rng.uniform(-32, 32), 3) for _ in range(3)))
+            if not flat and rng.random() < 0.6:
+                v.offset_norm = Vec(*_rand_dir(rng))
+            v.alpha = rng.choice([0.0, 255.0, round(rng.uniform(0, 255), 2)])
+            v.triangle_a = rng.choice(tags)
+            v.triangle_b = rng.choice(tags)
+            if multi:
+                v.multi_blend = Vec4(*(round(rng.random(), 3) for _ in range(4)))
+                v.multi_alpha = Vec4(*(round(rng.random(), 3) for _ in range(4)))
+                if rng.random() < 0.7:
+                    v.multi_colors = [Vec(*(round(rng.random(), 3) for _ in range(3))) for _ in range(4)]
+    solid.sides[index] = new
 
 
 ENT_MENU = ['info_target', 'logic_relay', 'func_door', 'light_spot', 'env_beam', 'info_overlay', 'ai_goal_follow',
@@ -338,7 +389,11 @@ def visible_ents(vmf):
 
 
 def side_model(s):
-    return {'p': [v3(p) for p in s.planes], 'u': ax5(s.uaxis), 'v': ax5(s.vaxis)}
+    d = None
+    if s.is_disp:
+        d = {'pos': v3(s.disp_pos),
+             'verts': [[v3(v.normal), v3(v.offset), v3(v.offset_norm), rat(v.distance), rat(v.alpha)] for v in s._disp_verts]}
+    return {'p': [v3(p) for p in s.planes], 'u': ax5(s.uaxis), 'v': ax5(s.vaxis), 'd': d}
 
 
 def solid_model(b):
@@ -408,9 +463,19 @@ def result_view(impl, clf, old_ents, new_ents, new_brushes):
 
 
 def _side_floats(s):
+    d = None
+    if s.is_disp:
+        d = {'pos': list(s.disp_pos),
+             'verts': [[list(v.normal), list(v.offset), list(v.offset_norm), v.distance, v.alpha] for v in s._disp_verts],
+             # everything of the displacement that a placement must not touch
+             'rest': repr((s.disp_power, s.disp_elevation, int(s.disp_flags.value), list(s.disp_allowed_vert or ()),
+                           [(v.x, v.y, v.triangle_a.value, v.triangle_b.value, v.multi_blend, v.multi_alpha,
+                             [tuple(c) for c in v.multi_colors] if v.multi_colors is not None else None)
+                            for v in s._disp_verts]))}
     return {'p': [list(p) for p in s.planes],
             'u': [s.uaxis.x, s.uaxis.y, s.uaxis.z, s.uaxis.offset, s.uaxis.scale],
-            'v': [s.vaxis.x, s.vaxis.y, s.vaxis.z, s.vaxis.offset, s.vaxis.scale]}
+            'v': [s.vaxis.x, s.vaxis.y, s.vaxis.z, s.vaxis.offset, s.vaxis.scale],
+            'd': d}
 
 
 def _cmp_side(si, sm, where, out):
@@ -422,6 +487,22 @@ def _cmp_side(si, sm, where, out):
         for j in range(5):
             if not close(si[ax][j], unrat(sm[ax][j]), TOL_MEM):
                 out.append(f'{where}: {ax}axis field {j}: impl {si[ax][j]!r} model {float(unrat(sm[ax][j]))!r}')
+    di, dm = si.get('d'), sm.get('d')
+    if (di is None) != (dm is None):
+        out.append(f'{where}: displacement impl {di is not None} model {dm is not None}')
+    elif di is not None:
+        if not all(close(di['pos'][j], unrat(dm['pos'][j]), TOL_MEM) for j in range(3)):
+            out.append(f'{where}: disp_pos impl {di["pos"]} model {[float(unrat(x)) for x in dm["pos"]]}')
+        if len(di['verts']) != len(dm['verts']):
+            out.append(f'{where}: {len(di["verts"])} displacement vertices vs model {len(dm["verts"])}')
+        else:
+            for n, (vi, vm) in enumerate(zip(di['verts'], dm['verts'])):
+                ok = all(close(vi[f][j], unrat(vm[f][j]), TOL_MEM) for f in range(3) for j in range(3)) and \
+                    all(close(vi[f], unrat(vm[f]), TOL_MEM) for f in (3, 4))
+                if not ok:
+                    out.append(f'{where}: displacement vertex {n}: impl {vi} model '
+                               f'{[[float(unrat(x)) for x in vm[f]] for f in range(3)] + [float(unrat(vm[3])), float(unrat(vm[4]))]}')
+                    break
 
 
 def _cmp_solids(bi, bm, where, out):
